@@ -1,12 +1,14 @@
 import PrologVerif.Driver.Common
 import PrologVerif.Driver.C18
 import PrologVerif.Driver.C02
+import PrologVerif.Driver.C03
 open PrologVerif PrologVerif.Driver
 
 def handlers : List (String × Handler) :=
   [ ("c18.hist", C18.handler),
     ("c02.unify", C02.handler),
-    ("c02.env", C02.envHandler) ]
+    ("c02.env", C02.envHandler),
+    ("c03.force", C03.handler) ]
 
 partial def loop (h : IO.FS.Stream) (out : IO.FS.Stream) (f : Handler) : IO Unit := do
   let line ← h.getLine
